@@ -11,6 +11,8 @@ MUTANTS = {
     "C15": [
         ("date-mask-inverted", P, "(self.timegrid.timepoints<= pd.Timestamp(fix_time_window['I']))",
          "(self.timegrid.timepoints>= pd.Timestamp(fix_time_window['I']))"),
+        ("date-mask-strict", P, "(self.timegrid.timepoints<= pd.Timestamp(fix_time_window['I']))",
+         "(self.timegrid.timepoints< pd.Timestamp(fix_time_window['I']))"),
         ("fix-lower-bound-only", P, "            l[I] = fix_time_window['x'][I]\n            u[I] = fix_time_window['x'][I]",
          "            l[I] = fix_time_window['x'][I]"),
         ("isin-mask-instead-of-steps", P, "mapping['time_step'].isin(self.timegrid.I[fix_time_window['I']])",
